@@ -59,6 +59,14 @@ def expected(nums, dens, style=None):
         return reference(tuple(nums[0] * (i + 1) for i in range(n)), dens) if nums[0] * n <= M64 else None
     if style == 7:
         return reference(nums, tuple(dens[0] * (i + 1) for i in range(d))) if dens[0] * d <= M64 else None
+    if style in (8, 9):
+        # a ratio used as a factor of another ratio is a floored, range-checked uint64 value of its own
+        inner = reference(nums[:2], dens[:1])
+        if inner is None:
+            return None
+        if style == 8:
+            return reference((inner,) + tuple(nums[2:]) + (3,), dens)
+        return reference(tuple(nums[2:]) + (3,), (inner,) + tuple(dens[1:]))
     return reference(nums, dens)
 
 
@@ -85,6 +93,12 @@ def program(n, d, lits=None):
         ratio = pt.WideRatio(denominatorFactors=dens, numeratorFactors=nums)
     elif grown == 5:
         ratio = pt.WideRatio(nums, denominatorFactors=dens)
+    elif grown in (8, 9):
+        inner = pt.WideRatio([nums[0], nums[1]], [dens[0]])
+        if grown == 8:
+            ratio = pt.WideRatio([inner] + nums[2:] + [pt.Int(3)], dens)
+        else:
+            ratio = pt.WideRatio(nums[2:] + [pt.Int(3)], [inner] + dens[1:])
     elif grown in (6, 7):
         # ONE expression object fills every numerator (6) / denominator (7) position; it counts its evaluations, the
         # k-th evaluation yields k * (first argument of that list): the product over the list is the same whatever
@@ -234,7 +248,9 @@ def run(tier):
                 nlit += 2
                 if n >= 2:
                     items.append((n, d, versions[1:3], {-1: 6}))
-                    nlit += 1
+                    items.append((n, d, versions[1:3], {-1: 8}))
+                    items.append((n, d, versions[1:3], {-1: 9}))
+                    nlit += 3
                 if d >= 2:
                     items.append((n, d, versions[1:3], {-1: 7}))
                     nlit += 1
